@@ -11,7 +11,9 @@ package simrt
 import (
 	"fmt"
 	"hash/fnv"
+	"runtime"
 	"runtime/debug"
+	"strings"
 	"sort"
 	"sync"
 	"sync/atomic"
@@ -71,6 +73,7 @@ type Task struct {
 	sel    []SelCase // blocked select
 
 	lockWait uintptr // lock id waited for
+	noYield  int     // > 0 while running simulator callbacks (probes, taps): no scheduling points
 }
 
 func (t *Task) String() string { return t.ID + "(" + t.Name + ")" }
@@ -283,13 +286,33 @@ func (r *Run) me() *Task {
 	r.mu.Lock()
 	t := r.tasks[g]
 	if t == nil {
-		t = r.newTask(nil, "foreign", true)
+		t = r.newTask(nil, "foreign:"+callerChain(), true)
 		t.g = g
 		t.state = stRunning
 		r.tasks[g] = t
 	}
 	r.mu.Unlock()
 	return t
+}
+
+// callerChain names the first few non-kernel frames of the calling goroutine.
+func callerChain() string {
+	pcs := make([]uintptr, 24)
+	n := runtime.Callers(3, pcs)
+	fr := runtime.CallersFrames(pcs[:n])
+	out := ""
+	k := 0
+	for {
+		f, more := fr.Next()
+		if !strings.Contains(f.Function, "verif/simrt.") && f.Function != "" {
+			out += f.Function + "<"
+			k++
+		}
+		if !more || k >= 6 {
+			break
+		}
+	}
+	return out
 }
 
 // enter makes sure t holds the baton.
@@ -321,6 +344,9 @@ func (r *Run) park(t *Task, guard func() bool, kind, site string) {
 
 // yield is a scheduling point of the given class.
 func (r *Run) yield(t *Task, class int, site string) {
+	if t.noYield > 0 {
+		return
+	}
 	r.Points++
 	r.ClassHits[class]++
 	if !r.cfg.ClassOn[class] {
@@ -565,7 +591,11 @@ func (r *Run) loop() {
 		r.holder.Store(pick)
 		r.mixDigest(pick.ID+"@"+pick.site+"/"+pick.kind, r.Steps)
 		if r.cfg.Trace {
-			r.trace("%d t=%v run %s %s@%s (of %d)", r.Steps, now.Sub(r.Start), pick.ID, pick.kind, pick.site, len(runnable))
+			nm := ""
+			if pick.foreign {
+				nm = " " + pick.Name
+			}
+			r.trace("%d t=%v run %s %s@%s (of %d)%s", r.Steps, now.Sub(r.Start), pick.ID, pick.kind, pick.site, len(runnable), nm)
 		}
 		r.mu.Unlock()
 		pick.resume <- struct{}{}
